@@ -8,6 +8,9 @@ Targets == { T(FALSE, <<"..", "sent">>), T(TRUE, <<"w", "sent">>), T(FALSE, <<".
 Names   == { <<"a">>, <<"b">>, <<"..", "a">>, <<"a", "b">>, <<"..">> }
 QEntries == { F(n) : n \in Names } \cup { L(n, t) : n \in { <<"a">>, <<"b">>, <<"..", "a">> }, t \in Targets }
 QDirNames == { <<"a">>, <<"b">> }
+(* thorough tier: three top-level entries over a reduced alphabet (full alphabet cubed is 8 M CLI runs) *)
+TTargets == { T(FALSE, <<"..", "sent">>), T(TRUE, <<"w", "sent">>), T(FALSE, <<"..", "sdir">>), T(FALSE, <<"b">>), T(FALSE, <<"..">>) }
+TEntries == { F(n) : n \in { <<"a">>, <<"b">>, <<"..", "a">>, <<"a", "b">> } } \cup { L(n, t) : n \in { <<"a">>, <<"b">> }, t \in TTargets }
 NoPre  == [p \in {} |-> [t |-> "dir"]]
 PreLink == (<<"a">> :> [t |-> "link", to |-> T(FALSE, <<"..", "sent">>)])
 PreDirLink == (<<"a">> :> [t |-> "link", to |-> T(FALSE, <<"..", "sdir">>)])
